@@ -13,6 +13,8 @@ pub fn violated(v: &Violation, new_input: &str) -> Option<bool> {
         "C05" => {
             if v.oracle == "depth-ladder" {
                 p_total::ladder_violated(&v.extra, v.cfg?)
+            } else if v.oracle == "no-abort" {
+                p_total::dies_in_isolation(new_input, v.cfg?).map(|d| d.0)
             } else {
                 p_total::violated(new_input, v.cfg?)
             }
